@@ -41,6 +41,8 @@ GEN.append("~V\nVERS. 1.2: old\nWRAP. NO:\n~W\nSTRT.M 1.0: first\nSTOP.M 3.0: la
 GEN.append("~V\nVERS. 2.0:\nWRAP. NO:\n~W\nSTRT.M 1:\nSTOP.M 3:\nSTEP.M 1:\nNULL. -999.25:\n~C\nDEPT.M:\n" + "".join("C%d.:\n" % j for j in range(1, 7))
            + "LITH.:\nC8.:\n~A\n" + "".join("%d " % r + " ".join("%d.25" % (r * 10 + j) for j in range(1, 7)) + " %s %d.5\n" % (w, r)
                                             for r, w in ((1, "SAND-SHALE"), (2, "SHALE"), (3, "LIME-DOLO-MIX"))))
+GEN.append("~V\nVERS. 2.0:\nWRAP. NO:\n~W\nSTRT.M 1:\nSTOP.M 2:\nSTEP.M 1:\nNULL. -999.25:\n~C\nDEPT.M:\nGR.:\n~P\n"
+           "BS  .8.5     216 : a decimal number as unit, widest item of its section\nRM.0.5 2 : another\n~A\n1 1\n2 2\n")
 for _w in ("TPL. {0} : plain description", "BRC. x : a lone { brace", "SET. {a,b} : {c}", "PCT. 50% : %s %d %(x)s 100%",
            "GUID. {WELL_NAME} : registry format", "ESC. C\\data\\new : back\\slashes \\n \\t"):
     GEN.append("~V\nVERS. 2.0:\nWRAP. NO:\n~W\nSTRT.M 1:\nSTOP.M 2:\nSTEP.M 1:\nNULL. -999.25:\n" + _w + "\n~C\nDEPT.M:\nGR.:\n~A\n1 1\n2 2\n")
@@ -55,7 +57,7 @@ for _r in (256, 257, 1000, 1001, 2003, 2048, 4097):
                    + "".join("C%d.:\n" % j for j in range(1, _c)) + "~A\n"
                    + "".join(" ".join(str(r + j * 0.25) for j in range(_c)) + "\n" for r in range(1, _r + 1)))
 OPTS = [{}, {"version": 1.2}, {"version": 2.0, "wrap": True}, {"fmt": "%.3f"}, {"fmt": "%.10g", "len_numeric_field": 25},
-        {"version": 1.2, "wrap": True, "data_width": 40}, {"mnemonics_header": True}, {"wrap": False, "spacer": "\t"}]
+        {"version": 1.2, "wrap": True, "data_width": 40}, {"mnemonics_header": True}, {"wrap": False, "spacer": "\t"}, {"wrap": True, "spacer": "\t"}]
 
 
 def mutate_text(text, rng):
@@ -96,6 +98,8 @@ def run(ctx):
     skipped = 0
     for name, text in sources:
         optsets = OPTS if thorough else [OPTS[0]] + rng.sample(OPTS[1:], 2)
+        if "DLM" in text[:600].upper() and OPTS[-1] not in optsets:
+            optsets = optsets + [OPTS[-1]]          # a declared delimiter and a tab spacer in wrapped output
         for kw in optsets:
             # (generated inputs are also cycled as read with mnemonic_case preserve / lower)
             rk = {} if not name.startswith("gen") or "#mut" in name else {"mnemonic_case": ["upper", "preserve", "lower"][len(events) % 3]}
